@@ -2058,7 +2058,7 @@ class Tensor:
         return self._op(MatMul, other, self)
 
     def __pow__(self, other: ArrayLike):
-        if isinstance(other, Number) or (
+        if (isinstance(other, Number) and not isinstance(other, bool)) or (
             isinstance(other, np.ndarray) and other.ndim == 0
         ):
             if other == 1:
@@ -2069,7 +2069,7 @@ class Tensor:
         return self._op(Power, self, other)
 
     def __ipow__(self, other: ArrayLike) -> "Tensor":
-        if isinstance(other, Number) or (
+        if (isinstance(other, Number) and not isinstance(other, bool)) or (
             isinstance(other, np.ndarray) and other.ndim == 0
         ):
             if other == 1:
